@@ -68,7 +68,13 @@ func appendIfNotIn(ids []*Identity, chk *Identity) []*Identity {
 // addChildren adds identity r and all of its children to ids
 // deterministically.
 func addChildren(r *Identity, ids []*Identity) []*Identity {
+	n := len(ids)
 	ids = appendIfNotIn(ids, r)
+	if len(ids) == n {
+		// Already visited, along with everything derived from it.  This
+		// also ends the recursion on a derivation cycle.
+		return ids
+	}
 
 	// Iterate through the values of r.
 	for _, ch := range r.Values {
@@ -181,6 +187,12 @@ func (ms *Modules) resolveIdentities() []error {
 		newValues := []*Identity{}
 		for _, j := range i.Identity.Values {
 			newValues = addChildren(j, newValues)
+		}
+		for _, j := range newValues {
+			if j == i.Identity {
+				errs = append(errs, fmt.Errorf("%s: identity %s is derived from itself", Source(i.Identity), i.Identity.Name))
+				break
+			}
 		}
 		sort.SliceStable(newValues, func(j, k int) bool {
 			if newValues[j].Name != newValues[k].Name {
